@@ -110,7 +110,7 @@ func (m *ModelServer) ListPublications(_ context.Context, request *traits.ListPu
 	}
 	pageSize := capPageSize(int(request.GetPageSize()))
 
-	sortedItems := m.model.ListPublications(resource.WithReadMask(request.ReadMask))
+	sortedItems := m.model.ListPublications() // unmasked: paging goes by the items' keys, which a read mask may leave out
 	nextIndex := 0
 	if lastKey != "" {
 		nextIndex = sort.Search(len(sortedItems), func(i int) bool {
@@ -136,7 +136,10 @@ func (m *ModelServer) ListPublications(_ context.Context, request *traits.ListPu
 	if err != nil {
 		return nil, err
 	}
-	result.Publications = sortedItems[nextIndex:upperBound]
+	readConfig := resource.ComputeReadConfig(resource.WithReadMask(request.ReadMask))
+	for _, item := range sortedItems[nextIndex:upperBound] {
+		result.Publications = append(result.Publications, readConfig.FilterClone(item).(*traits.Publication))
+	}
 	return result, nil
 }
 
